@@ -720,6 +720,7 @@ class Emit(Elaboratable):
         self.bits = [Signal(name=f"b{i}") for i in range(D.nbits)]
         self.ins = [Signal(4, name=f"in{i}") for i in range(D.nins)]
         self.objs, self.sw, self.rw, self.ww, self.fsm_on, self.alias = {}, {}, {}, {}, {}, {}
+        self.rel_proxies = []
         self.meths = [Method(name=f"M{i}", i=[("x", 4)] if D.meth[i]["has_in"] else [], o=[("y", 4)]) for i in range(D.nm)]
 
     def callee_obj(self, s):
@@ -919,10 +920,23 @@ class Emit(Elaboratable):
                         body(b)
             i += 1
         if last:
-            for a, b, pr in D.confl:
-                self.objs[a].add_conflict(self.objs[b], pr)
-            for a, b, rd in D.sb:
-                self.objs[a].schedule_before(self.objs[b], ready_dependent=rd)
+            # relations are declared on the defined objects or, for methods, on a proxy obtained with provide() (every third relation
+            # uses a proxy for its start, every third for its end): a relation declared on a proxy applies to the providing body
+            def obj(key, use_proxy, tag):
+                o = self.objs[key]
+                if use_proxy and key[0] == "m":
+                    px = Method.like(o, name=f"{o.name}_relproxy_{tag}")
+                    px.provide(o)
+                    self.rel_proxies.append(px)
+                    return px
+                return o
+
+            for n, (a, b, pr) in enumerate(D.confl):
+                obj(a, n % 3 == 0, f"c{n}s").add_conflict(obj(b, n % 3 == 1, f"c{n}e"), pr)
+                if (n % 3 == 0 and a[0] == "m") or (n % 3 == 1 and b[0] == "m"):
+                    D.relations_via_proxy = getattr(D, "relations_via_proxy", 0) + 1
+            for n, (a, b, rd) in enumerate(D.sb):
+                obj(a, n % 3 == 0, f"s{n}s").schedule_before(obj(b, n % 3 == 1, f"s{n}e"), ready_dependent=rd)
 
 
 class _Part(Elaboratable):
@@ -1326,6 +1340,8 @@ def run_design(rec: Rec, D, A, rnd: random.Random, case: dict, sched: str = "eag
         if not rec.viol_total:
             rec.harness_error("simulation crashed: " + traceback.format_exc()[-500:])
     rec.count("designs_simulated")
+    if getattr(D, "relations_via_proxy", 0):
+        rec.count("conflicts_declared_on_proxy_methods", D.relations_via_proxy)
     if exhaustive:
         rec.count("designs_with_exhaustive_valuations")
     if any(b.parent is not None for b in D.bodies.values()):
